@@ -37,6 +37,9 @@ def one(ctx, data, meta=None, htmls=(False, True)):
         # correspondence obs_10: marker runs, first run of every note paragraph
         for v in VIEWS[:5]:
             a, b = i.get(v + '_runs'), m.get(v + '_runs')
+            if a and b and 'ok' not in a and 'ok' in b:
+                # a hyperlink "contributes just its text" when it has only an anchor or an unresolvable id: it never makes the read fail
+                ctx.fail('reading a part raised although its links and notes are well formed (the model returns)', {**case, 'attribute': v + '_runs'}, a); good = False; continue
             if not a or not b or 'ok' not in a: ctx.skipped_raises += 1; continue
             if 'ok' not in b: ctx.diff(f'{v}_runs: model raises', case, 'returns', b); good = False; continue
             oa, ob = link_runs(a['ok']), link_runs(b['ok'])
